@@ -251,6 +251,8 @@ pub struct Env {
     pub sent_down: Vec<Vec<u8>>,
     /// number of delivered frames the property statements are silent about (oracles stand down)
     pub unspecified_seen: u64,
+    /// the device was restored from a structurally mutated document (only panic-freedom is judged)
+    pub mutated_session: bool,
     pub delivered: Vec<Delivered>,
     pub trace: Vec<Ev>,
     pub now_ms: u64,
@@ -293,6 +295,7 @@ impl Env {
             pending_join: None,
             sent_down: Vec::new(),
             unspecified_seen: 0,
+            mutated_session: false,
             delivered: Vec::new(),
             trace: Vec::new(),
             now_ms: 1000,
